@@ -674,7 +674,18 @@ func ruleRegionBackendSelection(c *Ctx) {
 				n++
 				target := ins
 				construct := fmt.Sprintf("region backend #%d in %s", k, fnName(fn))
-				if derivesFrom(backend, loadOfField(rs), 3) {
+				if phi, isPhi := strip(backend).(*ssa.Phi); isPhi {
+					// the backend was chosen first and used once (b := s.Base; if flag { b = s.regionStorage }; f(b), or a
+					// helper returning it): on every path the choice agrees with the flag test taken on that path
+					n++ // one use standing for both backends
+					trackPhis[fn] = append(trackPhis[fn], phi)
+					isRS := &calledEv{name: "the chosen backend is the region storage", match: func(x ssa.Instruction) bool {
+						return x == ssa.Instruction(phi) && derivesFrom(resolved(phi), loadOfField(rs), 3)
+					}, reset: func(x ssa.Instruction) bool { return x == ssa.Instruction(phi) }}
+					c.need(rule, fn, construct+" (chosen backend)", func(x ssa.Instruction) bool { return x == target }, []Ev{isRS, on, off},
+						func(h []bool) bool { return (h[0] && h[1]) || (!h[0] && h[2]) },
+						"the region storage is chosen exactly on the paths where useRegionStorage is set, the default backend on the others")
+				} else if derivesFrom(backend, loadOfField(rs), 3) {
 					c.need(rule, fn, construct+" (region storage)", func(x ssa.Instruction) bool { return x == target }, []Ev{on}, all,
 						"the dedicated region storage is used only while useRegionStorage is set")
 				} else {
